@@ -352,7 +352,7 @@ func (g *engine) static() {
 
 func scenarios(o *hx.Opts) []Scenario {
 	r := hx.NewRand(o.Seed)
-	names := []string{"basic", "compact", "restore", "follow", "behind", "reopen", "restorev3"}
+	names := []string{"basic", "compact", "restore", "follow", "behind", "reopen", "restorev3", "pinned", "ckptbusy"}
 	var out []Scenario
 	reps := 1
 	if o.Tier == "thorough" {
@@ -372,7 +372,7 @@ func main() {
 	}
 	o := hx.ParseFlags("C11")
 	res := hx.NewResult(o, "c11: strace'd litestream scenarios judged by Lean flushOK + Go rule oracle; static publish protocols")
-	res.Rule = "scenarios {basic, compact(+snapshot, retention), restore, follow(+txid sidecar), behind (baseline fetch, F8), reopen, restorev3 (legacy layout)} x seeded sizes, each run once under strace -f -y; the full system-call trace restricted to the meta/replica/output trees is one case (non-trivial = at least one event; distinct = canonical event line); each regenerated static protocol is one case; crash points around every rename/unlink/ack are replayed in the model"
+	res.Rule = "scenarios {basic, compact(+snapshot, retention), restore, follow(+txid sidecar), behind (baseline fetch, F8), reopen, restorev3 (legacy layout), pinned (checkpoints that cannot restart the WAL because of an application reader: explicit PASSIVE/FULL/RESTART/TRUNCATE and the threshold PASSIVE inside Sync), ckptbusy (checkpoints under concurrent commits)} x seeded sizes, each run once under strace -f -y; the full system-call trace restricted to the meta/replica/output trees is one case (non-trivial = at least one event; distinct = canonical event line); each regenerated static protocol is one case; crash points around every rename/unlink/ack are replayed in the model"
 	drv, err := hx.StartDriver(o.Driver)
 	if err != nil {
 		hx.Fatal(err)
